@@ -68,7 +68,7 @@ def cases(draw, tier):
             prog.append(g)
         elif k == 0:
             prog.append(draw(builder_instr()))
-        elif not has_qn and draw(st.integers(0, 4)) == 0:
+        elif not has_qn and draw(st.integers(0, 2)) == 0:
             if not any(i["op"] == "mpo" for i in prog):
                 prog.append(draw(chain.mpo_instr(spec)))
             prog.append({"op": "vcompress_sweeps", "o": draw(st.integers(0, 9)), "a": draw(st.integers(0, 9)),
